@@ -107,7 +107,7 @@ func c09(c *an.Ctx) {
 	p := c.P
 
 	siblings := []string{"mergeInputFields", "mergeFields", "mergePossibleTypes", "mergeEnumValues", "mergeSchemas"}
-	c.Check("R-SIBLING", "the five sibling merges keep a one-sided entry exactly under mode == Union and always keep a two-sided entry", 10, func(o *an.O) {
+	c.Check("R-SIBLING", "the five sibling merges keep a one-sided entry exactly under mode == Union and always keep a two-sided entry", 5, func(o *an.O) {
 		// Evaluated, not pattern-matched: with (entry is one-sided, mode is Union,
 		// one-sided input is NON_NULL) fixed, the loop over the names is explored and
 		// the appends to the merged list / the way back to the loop header must be
